@@ -3,8 +3,8 @@
    LabelJson.v (label sets), SeriesIndex.v (request histories), Dates.v (days and time zones). *)
 From Coq Require Import List ZArith Bool String Permutation.
 From Qryn Require Import model.GoQuote model.LabelJson model.Fingerprint model.Labels
-  model.SeriesIndex model.Dates
-  proofs.FingerprintProofs proofs.LabelsProofs proofs.SeriesIndexProofs proofs.DatesProofs.
+  model.SeriesIndex model.Dates model.CacheKey
+  proofs.FingerprintProofs proofs.LabelsProofs proofs.SeriesIndexProofs proofs.DatesProofs proofs.CacheKeyProofs.
 Import ListNotations.
 Open Scope Z_scope.
 
@@ -102,6 +102,25 @@ Theorem acked_sample_is_indexed_typed : forall h,
   clean_hist false h = true -> all_indexed_typed (run init h) = true.
 Proof. exact acked_indexed_typed_clean. Qed.
 Print Assumptions acked_sample_is_indexed_typed.
+
+(* The cache of the running process is a set of BYTE keys: serializer (CH64 (day, fingerprint, type)).
+   The obligation on the serializer the cache is constructed with - different 64-bit keys, different
+   byte strings - holds of the 8-byte little-endian form used in writer/plugin ... *)
+Theorem cache_key_injective : forall a b,
+  0 <= a < 2 ^ 64 -> 0 <= b < 2 ^ 64 -> ser_le8 a = ser_le8 b -> a = b.
+Proof. exact ser_le8_injective. Qed.
+Print Assumptions cache_key_injective.
+
+(* ... and it is what makes the triple-keyed cache of SeriesIndex.v the right abstraction: for every
+   key hash and serializer whose composition is injective on announcements (the hash part is a
+   collision-freeness hypothesis on CH64, not established), the parser over the byte-keyed cache
+   emits exactly the series rows of the model parser. (CacheKeyProofs.truncating_serializer_swallows:
+   with a serializer that keeps 32 bits the second of two colliding series gets no row.) *)
+Theorem announcement_cache_refines : forall key ser,
+  (forall x y, ck key ser x = ck key ser y -> x = y) ->
+  forall c ss, snd (k_parse key ser (map (ck key ser) c) ss) = snd (parse c ss).
+Proof. exact k_parse_rows. Qed.
+Print Assumptions announcement_cache_refines.
 
 (* (c) The series row of a sample is stored under a day the reader's lower date bound
    (UTC day of from - 30 min) does not exclude, for EVERY process time zone tz, every query start
